@@ -69,6 +69,7 @@ AlphaNorm == pc = "test" =>
              /\ Norm2(alpha) = (IF IsSquare(a) THEN 1 ELSE p - 1)
 A0IsNorm == pc = "test" => a0 = <<Norm2(alpha), 0>>
 (* the non-squares whose alpha has real part -1 exist whenever -2 is a square mod p (p = 3 mod 8) *)
-SpecialClassInhabited ==
-  (p % 8 = 3 /\ p > 3) => \E x \in Elems : ~IsSquare(x) /\ Pow2e(x, (p - 1) \div 2)[1] = p - 1
+SpecialClassInhabited ==   \* a fact about the field, evaluated once per prime (in the initial state of a = 0)
+  (pc = "start" /\ a = <<0, 0>> /\ p % 8 = 3 /\ p > 3) =>
+     \E x \in Elems : Pow2e(x, (p - 1) \div 2)[1] = p - 1 /\ ~IsSquare(x)
 =============================================================================
